@@ -286,7 +286,7 @@ func c15History(c *vc.Ctx, idx int) {
 	if idx%5 == 4 {
 		ex = ul // equal periods
 	}
-	cfg := lockCfg{Label: "c15", NVals: nv, MaxVals: 4, Blocks: c.Pick(70, 180), Protect0: true, JumpTime: true,
+	cfg := lockCfg{Label: "c15", NVals: nv, MaxVals: 4, Blocks: c.Pick(70, 180), Protect0: true, JumpTime: true, TimeEdges: true,
 		W: lockWeights{Create: 8, Lock: 35, Unlock: 65, Claim: 3, Weight: 5, Threshold: 8, Absent: 10, Evidence: 5, BigUnlock: 20},
 		Params: func(p *lockingtypes.Params) {
 			p.UnlockDuration = ul
